@@ -24,8 +24,8 @@ FLAVOURS = {
     "plain": dict(cxx="g++", flags="-O2 -g0 -ffp-contract=off"),
     "O0": dict(cxx="g++", flags="-O0 -g0 -ffp-contract=off"),
     "vg": dict(cxx="g++", flags="-O1 -g -ffp-contract=off", wrap=[
-        "valgrind", "-q", "--error-exitcode=68", "--track-origins=yes", "--child-silent-after-fork=no",
-        "--trace-children=no"]),
+        "valgrind", "-q", "--error-exitcode=68", "--exit-on-first-error=yes", "--track-origins=yes", "--child-silent-after-fork=no",
+        "--trace-children=no", "--log-file={out}.vg.%p"]),
     "alloc": dict(cxx="g++", flags="-O1 -g -ffp-contract=off -DVF_ALLOC_TRAP=1"),
     "clang14": dict(cxx="clang++-14", flags=f"-O1 -g -fno-omit-frame-pointer {SAN} -fno-sanitize=object-size -ffp-contract=off"),
 }
@@ -171,7 +171,7 @@ def tool(name):
 
 
 VIOL_KINDS = {"diverge", "crash", "hang", "lifetime", "contract-spurious", "contract-missed", "contract-late",
-              "contract-damage", "alloc", "uninit", "compile-failure", "leak", "inconclusive"}
+              "contract-damage", "alloc", "uninit", "compile-failure", "leak"}
 
 
 def run_check(prop, tier, seed, P, only_units=None, quiet=False):
@@ -218,7 +218,7 @@ def run_check(prop, tier, seed, P, only_units=None, quiet=False):
         for i in range(n):
             out = os.path.join(rundir, f"{u.name}.{fl}.{i}.jsonl")
             base, _ = flavour_parts(fl)
-            cmd = list(FLAVOURS[base].get("wrap", [])) + [built[(u.name, fl)], "--out", out, "--shard", f"{i}/{n}",
+            cmd = [w.replace("{out}", out) for w in FLAVOURS[base].get("wrap", [])] + [built[(u.name, fl)], "--out", out, "--shard", f"{i}/{n}",
                                                           "--seed", str(seed), "--tier", tier] + u.args
             jobs.append((u, fl, i, out, cmd))
     env = dict(os.environ)
@@ -229,7 +229,9 @@ def run_check(prop, tier, seed, P, only_units=None, quiet=False):
     def run_job(j):
         u, fl, i, out, cmd = j
         try:
-            r = subprocess.run(cmd, env=env, stdout=subprocess.PIPE, stderr=subprocess.PIPE, timeout=wall_limit)
+            jenv = dict(env)
+            jenv["VF_VG_LOG"] = out + ".vg"
+            r = subprocess.run(cmd, env=jenv, stdout=subprocess.PIPE, stderr=subprocess.PIPE, timeout=wall_limit)
             return j, r.returncode, r.stderr.decode(errors="replace")[-2000:]
         except subprocess.TimeoutExpired:
             return j, -999, "driver wall-clock watchdog"
@@ -272,6 +274,8 @@ def run_check(prop, tier, seed, P, only_units=None, quiet=False):
                     bulk_distinct += r["distinct"]
                 elif k == "note":
                     pass
+                elif k == "inconclusive":
+                    inconclusive.append(f"{u.name}.{fl}: {r.get('key')}: {r.get('obs')}")
                 elif k == "site":
                     sites.add((r.get("file"), r.get("line")))
                 elif k in VIOL_KINDS:
